@@ -167,8 +167,9 @@ def _worker(prop_mod_name, cond_name, tier, repo, out_path, excluded):
                         else:
                             res['status'] = 'cex_not_reproduced'
                             res['detail'] = 'model counterexample does not reproduce on the ' \
-                                            'real library: model=%r real=%r inputs=%r' % (
-                                                cex.get('detail'), what, cex.get('inputs'))
+                                            'real library: model=%r (%s) real=%r inputs=%r' % (
+                                                cex.get('detail'), cex.get('info'), what,
+                                                cex.get('inputs'))
                     except Exception as e:
                         res['status'] = 'error'
                         res['detail'] = 'replay failed: %s\n%s' % (e, traceback.format_exc())
